@@ -9,14 +9,20 @@ pub mod c02;
 pub mod c03;
 pub mod c04;
 pub mod c05;
+pub mod c06;
 pub mod c07;
+pub mod c09;
 pub mod c10;
 pub mod c11;
+pub mod c12;
+pub mod c13;
+pub mod c14;
 pub mod c15;
 pub mod c16;
 pub mod c17;
 pub mod c18;
 pub mod c19;
+pub mod c20;
 
 pub struct Prop {
     pub id: &'static str,
@@ -32,14 +38,20 @@ pub const ALL: &[Prop] = &[
     Prop { id: "C03", level: "exploration", run: c03::run, replay: c03::replay },
     Prop { id: "C04", level: "exploration", run: c04::run, replay: c04::replay },
     Prop { id: "C05", level: "exploration", run: c05::run, replay: c05::replay },
+    Prop { id: "C06", level: "exploration", run: c06::run, replay: c06::replay },
     Prop { id: "C07", level: "exploration", run: c07::run, replay: c07::replay },
+    Prop { id: "C09", level: "exploration", run: c09::run, replay: c09::replay },
     Prop { id: "C10", level: "exploration", run: c10::run, replay: c10::replay },
     Prop { id: "C11", level: "exploration", run: c11::run, replay: c11::replay },
+    Prop { id: "C12", level: "exploration", run: c12::run, replay: c12::replay },
+    Prop { id: "C13", level: "exploration", run: c13::run, replay: c13::replay },
+    Prop { id: "C14", level: "exploration", run: c14::run, replay: c14::replay },
     Prop { id: "C15", level: "fault_enumeration", run: c15::run, replay: c15::replay },
     Prop { id: "C16", level: "exploration", run: c16::run, replay: c16::replay },
     Prop { id: "C17", level: "fault_enumeration", run: c17::run, replay: c17::replay },
     Prop { id: "C18", level: "exploration", run: c18::run, replay: c18::replay },
     Prop { id: "C19", level: "exploration", run: c19::run, replay: c19::replay },
+    Prop { id: "C20", level: "exploration", run: c20::run, replay: c20::replay },
 ];
 
 pub fn find(id: &str) -> Option<&'static Prop> {
